@@ -191,8 +191,73 @@ def run_probe(domain, problem, pr):
     return r
 
 
+def _canon(st):
+    """a read-back state as a comparable value (sets of facts, map of fluents)"""
+    if "value" not in st:
+        return ("raised", st.get("raised"))
+    v = st["value"]
+    return (sorted((p, tuple(a)) for p, a in v["facts"]), sorted((f, tuple(a), x) for f, a, x in v["fluents"]))
+
+
+def run_seq(domain, problems, sq):
+    """a call SEQUENCE on one Operator object.  sq: action, args, start (state index), perm/uperm/inner_seed, steps
+    [{src: None (the state the previous call returned; the state it was given when it raised) | j (a fresh copy of
+    state j), allow}].  Every returned state is read back at once and a second time after the last call."""
+    global TRACE, GROUP_IDS
+    used = [sq["start"]] + [st["src"] for st in sq["steps"] if st["src"] is not None]
+    for j in used:
+        if isinstance(problems[j], dict):
+            return {"problem_raised": problems[j]}
+
+    def fresh_state(j):
+        problem = problems[j]
+        return State({k: set(v) for k, v in problem.initial_state_predicates.items()},
+                     {k: v.copy() for k, v in problem.initial_state_fluents.items()}, is_init=True)
+    out = {"order": [], "uorder": [], "obs_order": False, "steps": []}
+    action = domain.actions.get(sq["action"])
+    if action is None:
+        e = exc(KeyError(sq["action"]))
+        out["steps"] = [{"succ": e, "valerr": False} for _ in sq["steps"]]
+        return out
+    try:
+        op = Operator(action, domain, list(sq["args"]), problems[sq["start"]].objects)
+        out["order"], out["uorder"], out["obs_order"] = arrange(op, sq)
+        GROUP_IDS = {id(g) for g in op.grounded_effects}
+    except Exception as e:  # noqa
+        out["steps"] = [{"succ": exc(e), "valerr": isinstance(e, ValueError)} for _ in sq["steps"]]
+        return out
+    cur = fresh_state(sq["start"])
+    held = []
+    for st in sq["steps"]:
+        src = cur if st["src"] is None else fresh_state(st["src"])
+        o = {"valerr": False}
+        TRACE = []
+        try:
+            nxt = op.apply(src, allow_inapplicable_actions=bool(st["allow"]))
+            o["succ"] = {"value": read_state_text(nxt.serialize())}
+            held.append((o, nxt))
+            cur = nxt
+        except Exception as e:  # noqa
+            o["succ"] = exc(e)
+            o["valerr"] = isinstance(e, ValueError)
+            cur = src
+        finally:
+            o["trace"] = summarise(TRACE)
+            TRACE = None
+        out["steps"].append(o)
+    for o, state in held:
+        try:
+            late = {"value": read_state_text(state.serialize())}
+        except Exception as e:  # noqa
+            late = exc(e)
+        if _canon(late) != _canon(o["succ"]):
+            o["late"] = late
+    return out
+
+
 def world(job):
-    """job: domain_text, states [problem_text], probes [{action, args, state (index), perm, uperm, inner_seed}]"""
+    """job: domain_text, states [problem_text], probes [{action, args, state (index), perm, uperm, inner_seed}],
+    seqs [see run_seq]"""
     out = {"nums": number_table(job["domain_text"])}
     dpath = write_tmp(job["domain_text"], ".pddl")
     try:
@@ -221,6 +286,7 @@ def world(job):
             else:
                 res.append(run_probe(domain, pb, pr))
         out["probes"] = res
+        out["seqs"] = [run_seq(domain, problems, sq) for sq in job.get("seqs", [])]
         return out
     finally:
         dpath.unlink()
